@@ -339,6 +339,10 @@ def match_sequence_type(value: Any,
             return any(
                 match_st(e, element_test) for e in document if isinstance(e, ElementNode)
             )
+        elif node_kind == 'namespace':
+            return st == 'namespace-node()'
+        elif node_kind == 'processing-instruction':
+            return v.name == st[23:-1].strip('"\'')
         elif node_kind not in ('element', 'attribute'):
             return False
 
